@@ -1,11 +1,16 @@
 (* C09 — Exclusive: at most one work function per key at a time; keys are independent.
-   Statements only; every proof is `exact` of a lemma of Proofs/ExclusiveAbs.v or Proofs/ExclusiveKeys.v.
+   Statements only; every proof is `exact` of a lemma of Proofs/ExclusiveAbs.v, ExclusiveKeys.v or ExclusiveKeysN.v,
+   except the obligations over the lockset facts GENERATED from the current source (Gen/ImplLocksets.v), which are
+   closed by computation as in Properties/C11.v.
    Model: counter abstraction of exclusive.go for one key (Model/ExclusiveAbs.v: any number of blocking/async and
    start-style calls, every interleaving of their critical sections with the runner's sleep / resolve / return /
-   release steps) and its two-key product (Model/ExclusiveKeys.v). *)
+   release steps), its two-key product (Model/ExclusiveKeys.v) and its product over ANY number of keys
+   (Model/ExclusiveKeysN.v); Model/ExclusiveLocks.v: the checks on the map lock. *)
 From Coq Require Import List Arith Bool.
-From BB.Model Require Import ExclusiveAbs ExclusiveKeys.
-From BB.Proofs Require ExclusiveAbs ExclusiveKeys.
+From BB.Model Require Import ExclusiveAbs ExclusiveKeys ExclusiveKeysN.
+From BB.Model Require Lockset ExclusiveLocks.
+From BB.Proofs Require ExclusiveAbs ExclusiveKeys ExclusiveKeysN.
+From BB.Gen Require ImplLocksets.
 Import ListNotations.
 
 (* `overlap` is set by `replace` (= ExecStart) iff `execa <> 0`, and `execa` is cleared by PReturn only: it stays 1
@@ -81,3 +86,90 @@ Example C09_held_key_does_not_delay_other_key :
   rp (fst s) = RWork /\ v (fst s) answered = 0 /\
   terminalb (snd s) = true /\ v (snd s) answered = 1 /\ v (snd s) started = 1.
 Proof. exact Proofs.ExclusiveKeys.held_key_does_not_delay_other_key. Qed.
+
+(* ================================================================================================================ *)
+(* "for every number of keys": the product over a LIST of one-key models (key = index; cfg gives each key's numbers of
+   blocking/async and start-style calls).  Each key behaves exactly as the one-key model run on its own picks ... *)
+Theorem C09_keysN_independent : forall cfg sched k,
+  nth_error (runN (initN cfg) sched) k
+  = option_map (fun ab => run (init (fst ab) (snd ab)) (projN k sched)) (nth_error cfg k).
+Proof. exact Proofs.ExclusiveKeysN.keysN_independent. Qed.
+Print Assumptions C09_keysN_independent.
+
+(* ... whatever the other keys do or fail to do (work functions that never resolve or return included), neither the state
+   of key k nor the enabledness or effect of any of its picks changes ... *)
+Theorem C09_other_keys_never_interfere : forall (k : nat) (s : stN) (sched : list pickN) (p : pick),
+  (forall q, In q sched -> fst q <> k) ->
+  nth_error (runN s sched) k = nth_error s k /\
+  stepN (runN s sched) (k, p) =
+    match nth_error s k with
+    | Some c => match step c p with Some x => Some (putN k x (runN s sched)) | None => None end
+    | None => None
+    end.
+Proof. exact Proofs.ExclusiveKeysN.other_keys_never_interfere. Qed.
+Print Assumptions C09_other_keys_never_interfere.
+
+(* ... and on every key of every product no two executions overlap *)
+Theorem C09_no_overlap_on_every_key : forall cfg sched k c,
+  nth_error (runN (initN cfg) sched) k = Some c ->
+  Proofs.ExclusiveAbs.Inv c /\ v c overlap = 0 /\ v c started <= v c issuedc + v c issueds.
+Proof. exact Proofs.ExclusiveKeysN.keysN_invariant. Qed.
+Print Assumptions C09_no_overlap_on_every_key.
+
+(* the two-key model above is the instance with two components *)
+Theorem C09_two_key_model_is_an_instance : forall sched s,
+  runN (Proofs.ExclusiveKeysN.pair_list s) (map (fun p => (Proofs.ExclusiveKeysN.idx (fst p), snd p)) sched)
+  = Proofs.ExclusiveKeysN.pair_list (run2 s sched).
+Proof. exact Proofs.ExclusiveKeysN.keys2_is_keysN. Qed.
+Print Assumptions C09_two_key_model_is_an_instance.
+
+(* ================================================================================================================ *)
+(* The product models are products BY CONSTRUCTION; what makes them a model of exclusive.go is that the one object shared
+   between keys, Exclusive.mutex (the map lock), is never held while a goroutine blocks.  The obligations below are over
+   the lockset facts regenerated from the CURRENT source by harness/cmd/lockx (field accesses with the locks held);
+   the checks are defined, and their exact scope and blind spots documented, in Model/ExclusiveLocks.v.  They fail to
+   compile when, e.g., `item.mutex.Lock()` is moved inside an e.mutex critical section, the `for item.running` wait
+   loop or `item.work(resolve)` is run under e.mutex (each was tried).  NOT covered (the translator does not record
+   blocking operations as such): time.Sleep, channel operations, a cond.Wait outside a loop on running/complete. *)
+
+(* (A) while the map lock is held: item.work is never read, item.running / item.complete are never read on a published
+   item (no wait loop), and an item's mutex/cond field is touched only on a fresh item or with that item's own mutex
+   already held (pointer copies into the successor), so it is never the target of a blocking Lock() *)
+Theorem C09_impl_map_lock_sections_do_not_block :
+  forallb Model.ExclusiveLocks.map_lock_section_ok Gen.ImplLocksets.impl_facts = true.
+Proof. vm_compute; reflexivity. Qed.
+Print Assumptions C09_impl_map_lock_sections_do_not_block.
+
+(* (B) wherever a goroutine is about to Lock() an item's mutex (reads the field without holding it) it holds NO lock:
+   a blocked Lock() on one key's item holds up neither the map nor another key's item *)
+Theorem C09_impl_item_lock_acquired_with_nothing_held :
+  forallb Model.ExclusiveLocks.item_lock_acquire_ok Gen.ImplLocksets.impl_facts = true.
+Proof. vm_compute; reflexivity. Qed.
+Print Assumptions C09_impl_item_lock_acquired_with_nothing_held.
+
+(* (C) the work function is fetched for calling with no lock held at all; (D) the only locks the item protocol ever
+   holds are the map lock and item mutexes *)
+Theorem C09_impl_work_called_with_nothing_held :
+  forallb Model.ExclusiveLocks.work_call_ok Gen.ImplLocksets.impl_facts = true /\
+  forallb Model.ExclusiveLocks.only_known_locks Gen.ImplLocksets.impl_facts = true.
+Proof. vm_compute; split; reflexivity. Qed.
+Print Assumptions C09_impl_work_called_with_nothing_held.
+
+(* the checks are not vacuous: there are accesses under the map lock, Lock() sites on item mutexes, a read of item.work,
+   and cond accesses made holding only the item's own mutex *)
+Example C09_impl_lock_facts_present :
+  (1 <=? Model.ExclusiveLocks.count_facts Model.ExclusiveLocks.holds_map_lock Gen.ImplLocksets.impl_facts) = true /\
+  (1 <=? Model.ExclusiveLocks.count_facts Model.ExclusiveLocks.item_lock_acquire Gen.ImplLocksets.impl_facts) = true /\
+  (1 <=? Model.ExclusiveLocks.count_facts Model.ExclusiveLocks.reads_item_work Gen.ImplLocksets.impl_facts) = true /\
+  (1 <=? Model.ExclusiveLocks.count_facts Model.ExclusiveLocks.cond_access_own_mutex_only Gen.ImplLocksets.impl_facts) = true.
+Proof. vm_compute; auto. Qed.
+
+(* three keys: key 0's work function is held for ever in RWork, key 1 is never used, a call on key 2 is made, executed
+   and answered *)
+Example C09_held_key_does_not_delay_third_key :
+  let s := runN (initN ((1, 0) :: (0, 0) :: (1, 0) :: nil))
+             ((0, PB (PCall KC)) :: (0, PB (PAttach KC false)) ::
+              (2, PB (PCall KC)) :: (2, PB (PAttach KC false)) :: (2, PB PResolve) :: (2, PB PReturn) :: (2, PB PG3) :: nil) in
+  option_map rp (nth_error s 0) = Some RWork /\
+  option_map terminalb (nth_error s 2) = Some true /\ option_map (fun c => v c answered) (nth_error s 2) = Some 1.
+Proof. exact Proofs.ExclusiveKeysN.held_key_does_not_delay_third_key. Qed.
